@@ -2,7 +2,6 @@ package main
 
 import (
 	"github.com/6tail/lunar-go/calendar"
-	"sort"
 )
 
 var c07Boundary = []int{1, 2, 4, 8, 15, 16, 18, 19, 23, 24, 100, 236, 237, 239, 240, 1500, 1582, 1583, 1600, 1900, 2000, 2020, 2033, 2034, 2100, 9997, 9998}
@@ -127,18 +126,29 @@ func c07Lunar(c *ctx) {
 		f["t"] = t
 		c.emit(f)
 	}
-	// the turn of the year in and after every year of the library's leap-11 / leap-12 tables (where the table of
-	// a year and the table of the next one are built by different rules): the civil day's lunar triple is accepted
+	// the turn of the year in and after every year with a leap 11th / 12th month - found in the tail of the year's
+	// own table OR in the head of the next year's, which the library builds by different rules (a list of years vs
+	// the general rule): the civil day's lunar triple is accepted
 	// by the constructor and leads back to the same civil day
 	tys := []int{}
-	for _, tab := range [][]int{calendar.LEAP_11, calendar.LEAP_12} {
-		for _, t := range tab {
-			if t >= 1 && t <= 9997 {
-				tys = append(tys, t)
+	for t := 1; t <= 9997; t++ {
+		if !c.mine(t) {
+			continue
+		}
+		hit := false
+		try(func() {
+			for _, tb := range [][][]int{yearTable(t), yearTable(t + 1)} {
+				for _, r := range tb {
+					if r[0] == t && (r[1] == -11 || r[1] == -12) {
+						hit = true
+					}
+				}
 			}
+		})
+		if hit {
+			tys = append(tys, t)
 		}
 	}
-	sort.Ints(tys)
 	rows := [][]int{}
 	flush := func() {
 		if len(rows) > 0 {
@@ -147,9 +157,6 @@ func c07Lunar(c *ctx) {
 		}
 	}
 	for _, t := range tys {
-		if !c.mine(t) {
-			continue
-		}
 		for _, ymd := range [][3]int{{t, 12, 20}, {t, 12, 31}, {t + 1, 1, 1}, {t + 1, 1, 15}, {t + 1, 1, 29}, {t + 1, 2, 12}} {
 			s, bad := safeSolar(ymd[0], ymd[1], ymd[2], 12, 0, 0)
 			if bad {
